@@ -236,7 +236,7 @@ func (cfg *Config) paramExp(pe *syntax.ParamExp) (string, error) {
 		}
 		str = join(elems)
 	case pe.Exp != nil:
-		arg, err := Literal(cfg, pe.Exp.Word)
+		arg, err := cfg.expArg(pe.Exp)
 		if err != nil {
 			return "", err
 		}
@@ -348,6 +348,20 @@ func (cfg *Config) paramExp(pe *syntax.ParamExp) (string, error) {
 	return str, nil
 }
 
+// expArg expands the argument word of an expansion like ${a:-word} or ${a#pattern}.
+// The operators which match their argument against the value take a pattern,
+// so that quoted or escaped metacharacters in it stay literal.
+func (cfg *Config) expArg(exp *syntax.Expansion) (string, error) {
+	switch exp.Op {
+	case syntax.RemSmallPrefix, syntax.RemLargePrefix,
+		syntax.RemSmallSuffix, syntax.RemLargeSuffix,
+		syntax.UpperFirst, syntax.UpperAll,
+		syntax.LowerFirst, syntax.LowerAll:
+		return Pattern(cfg, exp.Word)
+	}
+	return Literal(cfg, exp.Word)
+}
+
 func removePattern(str, pat string, fromEnd, shortest bool) string {
 	var mode pattern.Mode
 	if shortest {
@@ -388,7 +402,7 @@ func (cfg *Config) perElemOps(pe *syntax.ParamExp, elems []string) ([]string, er
 	case pe.Repl != nil:
 		return cfg.replaceElems(pe.Repl, elems)
 	case pe.Exp != nil:
-		arg, err := Literal(cfg, pe.Exp.Word)
+		arg, err := cfg.expArg(pe.Exp)
 		if err != nil {
 			return nil, err
 		}
